@@ -17,6 +17,23 @@ func VerifRateZero(writeDelay time.Duration, chars int) (newDelay, delay time.Du
 	return c.writeDelay, delay
 }
 
+// VerifRateAt runs ircConn.rate on a connection whose last write was stamped sinceWrite
+// ago and whose last rate call happened sinceRate ago (a negative duration leaves the
+// respective time unset). Returns the new accumulated delay, the delay imposed on this
+// event, and whether lastRate was advanced to (at least) the time of this call.
+func VerifRateAt(writeDelay, sinceWrite, sinceRate time.Duration, chars int) (newDelay, delay time.Duration, advanced bool) {
+	now := time.Now()
+	c := &ircConn{writeDelay: writeDelay}
+	if sinceWrite >= 0 {
+		c.lastWrite = now.Add(-sinceWrite)
+	}
+	if sinceRate >= 0 {
+		c.lastRate = now.Add(-sinceRate)
+	}
+	delay = c.rate(chars)
+	return c.writeDelay, delay, !c.lastRate.Before(now)
+}
+
 // VerifRateState returns the accumulated delay of the live connection and how long ago
 // its last socket write was stamped; ok is false when the client is not connected.
 func (c *Client) VerifRateState() (writeDelay, sinceLastWrite time.Duration, ok bool) {
